@@ -289,6 +289,13 @@ Definition P_C12_block (wa : list addr) (prev : snapshot) (b : blk) : bool :=
                    end) (sn_frozen (k_snap b))
   && forallb (λ s, negb (sv_refund s <=? h - 1) || negb (existsb (λ s0, (sv_hash s0 =? sv_hash s)%N && (sv_refund s0 =? sv_refund s)) (sn_frozen prev)))
              (sn_frozen (k_snap b))
+  (* an unbonding stake is untouched until it matures: same owner, target, start, refund height and
+     POWER (it is paid back in full: nothing, slashing of its former validator included, reaches it) *)
+  && forallb (λ s0, (sv_refund s0 <=? h) ||
+                    match find_view (sv_hash s0) (sn_frozen (k_snap b)) with
+                    | Some s1 => negb ((sv_from s1 =? sv_from s0)%N && (sv_refund s1 =? sv_refund s0)) || eqb_stake_view s1 s0
+                    | None => true   (* replaced under the same hash: the known genesis-hash collision, judged elsewhere *)
+                    end) (sn_frozen prev)
   && P_bal_block wa prev b.
 Definition P_C12 (c : acase) : bool := forall_blocks c (P_C12_block (c_wa c)).
 
